@@ -613,8 +613,13 @@ Err(EvaluationError::InvalidExpression(
                 )),
             },
             UnaryOperator::Minus => match operand {
-                DataType::BigInt(i) => Ok(DataType::BigInt((-i.0).into())),
-                DataType::Int(i) => Ok(DataType::Int((-i.0).into())),
+                // The smallest value of a signed type has no positive counterpart.
+                DataType::BigInt(i) => i.0.checked_neg().map(|v| DataType::BigInt(v.into())).ok_or(
+                    EvaluationError::InvalidExpression("integer out of range".to_string()),
+                ),
+                DataType::Int(i) => i.0.checked_neg().map(|v| DataType::Int(v.into())).ok_or(
+                    EvaluationError::InvalidExpression("integer out of range".to_string()),
+                ),
                 DataType::Double(f) => Ok(DataType::Double((-f.0).into())),
                 DataType::Float(f) => Ok(DataType::Float((-f.0).into())),
                 _ => Err(EvaluationError::TypeError(
